@@ -119,4 +119,26 @@ func cmsSemantics(env *Env, v Variant, blob []byte, embed func(nb []byte) ([]byt
 	return out
 }
 
+// cmsEmbedContent turns a detached SignedData into one that carries content as
+// encapsulated eContent ([0] EXPLICIT OCTET STRING after the content type);
+// no key is needed for that.
+func cmsEmbedContent(blob, content []byte) ([]byte, error) {
+	ci, err := cmsLocate(blob)
+	if err != nil {
+		return nil, err
+	}
+	lay := ci.Lay
+	if lay.HasEContent {
+		return nil, fmt.Errorf("cms: not detached")
+	}
+	blob = blob[:lay.Full.End]
+	enc, err := dergen.Parse(blob[lay.EncapCI.Start:lay.EncapCI.End])
+	if err != nil || len(enc.Kids) != 1 {
+		return nil, fmt.Errorf("cms: unexpected encapContentInfo")
+	}
+	oid := blob[lay.EncapCI.Start+enc.Kids[0].Start : lay.EncapCI.Start+enc.Kids[0].End]
+	repl := dergen.Seq(oid, dergen.Ctx(0, true, dergen.Octets(content)))
+	return derSplice(blob, lay.EncapCI.Start, lay.EncapCI.End, repl)
+}
+
 var semSkipped []string
